@@ -4472,6 +4472,9 @@ namespace detail {
 template <typename TArgs>
 class CPlanT {
 	template <typename>
+	friend class ConstControlT;
+
+	template <typename>
 	friend class ControlT;
 
 	template <typename>
@@ -4494,6 +4497,7 @@ class CPlanT {
 	static constexpr Long TASK_CAPACITY = Args::TASK_CAPACITY;
 
 public:
+	using Registry		= RegistryT<Args>;
 	using PlanData		= PlanDataT<Args>;
 	using Task			= typename PlanData::Task;
 	using TaskLinks		= typename PlanData::TaskLinks;
@@ -4518,7 +4522,8 @@ public:
 	};
 
 private:
-	HFSM2_CONSTEXPR(11)	CPlanT(const PlanData& planData,
+	HFSM2_CONSTEXPR(11)	CPlanT(const Registry&,
+							   const PlanData& planData,
 							   const RegionID regionId_)				noexcept
 		: _planData{planData}
 		, _bounds{planData.taskBounds[regionId_]}
